@@ -1117,6 +1117,12 @@ impl<P: Xof<SEED_SIZE>, const SEED_SIZE: usize> Aggregator<SEED_SIZE, 16>
             }
         };
 
+        if public_share.bits() != self.bits || input_share.corr_inner.len() + 1 != self.bits {
+            return Err(VdafError::Uncategorized(
+                "public share or input share was generated for a different bit length".to_string(),
+            ));
+        }
+
         if usize::from(agg_param.level) + 1 < self.bits {
             let mut corr_prng = self.init_prng::<_, _, Field64>(
                 input_share.corr_seed.as_ref(),
